@@ -1,0 +1,26 @@
+package object
+
+// HasFunction tells whether a value is, or contains (in an array or a map, at any depth), a function.
+// A function value carries its definition environment, so it has an identity: handing the same one out
+// again from the function-result cache would make two callers share (and mutate) one captured state.
+func HasFunction(o Object) bool {
+	switch o.Type() { //nolint:exhaustive // only containers and functions matter.
+	case FUNC:
+		return true
+	case ARRAY:
+		for _, el := range Elements(o) {
+			if HasFunction(el) {
+				return true
+			}
+		}
+	case MAP:
+		if m, ok := o.(Map); ok {
+			for _, kv := range m.mapElements() {
+				if HasFunction(kv.Key) || HasFunction(kv.Value) {
+					return true
+				}
+			}
+		}
+	}
+	return false
+}
